@@ -12,7 +12,7 @@ import Spine.C02Tables
     store r=… p=… old=… new=… fp=… fd=…   → ok=<0|1> store=<items> | panic <site>     (spine.FunctionData.UpdateData)
     kv old=<items> new=<items> fp=<filter> fd=<filter>
         → na <reason> | kv <items>          (Spec.KV.apply on well-formed input, as a key-ordered list)
-    cfg <mergeStrict> <selNilPanics> <emptySelPanics> <inplaceAltersFlag>  (0|1 each) → cfg-ok
+    cfg <mergeStrict> <selNilPanics> <emptySelPanics> <inplaceAltersFlag> [<deleteStrict>]  (0|1 each) → cfg-ok
         selects the member of the engine family (`Spine.UpdateF`); default = all 1 = the code as written
         (`updateListF_asWritten`); the harness probes the flags on the tree under test
     reset → reset (forgets the shape, keeps the member)
@@ -142,6 +142,10 @@ partial def loop (inp out : IO.FS.Stream) (c : UCfg) (sh : Option Shape) : IO Un
     if [a, b, d, e].all (fun x => x == "0" || x == "1") then
       out.putStrLn "cfg-ok"; out.flush
       return ← loop inp out { mergeStrict := a == "1", selNilPanics := b == "1", emptySelPanics := d == "1", inplaceAltersFlag := e == "1" } sh
+  if let ["cfg", a, b, d, e, g] := toks then
+    if [a, b, d, e, g].all (fun x => x == "0" || x == "1") then
+      out.putStrLn "cfg-ok"; out.flush
+      return ← loop inp out { mergeStrict := a == "1", selNilPanics := b == "1", emptySelPanics := d == "1", inplaceAltersFlag := e == "1", deleteStrict := g == "1" } sh
   if let ["selfacts", x] := toks then
     if x == "0" || x == "1" then
       updStructDeep.set (x == "1")
